@@ -421,15 +421,18 @@ def _interleaved(v, b, held_extra, o1, o2, point, want):
     s._value = v
     s._initial_value = b
     exp_b = b
-    state = {'n': 0, 'fired': False, 'blocked': False}
+    state = {'n': 0, 'fired': False, 'blocked': False, 'surplus': False}
 
     def do(op, obj):
         nonlocal held, exp_b
         if op == 'release':
-            if held < 1:
-                raise Prune()             # only a user that holds a slot gives one back
+            # a user that holds a slot gives it back; with nothing held it is one of the pool's surplus releases (the supervisor
+            # releases once per reaped worker whether or not it held a job), which the semaphore is there to absorb
             bp.LaxBoundedSemaphore.release(obj)
-            held -= 1
+            if held >= 1:
+                held -= 1
+            else:
+                state['surplus'] = True
         elif op == 'acquire':
             if obj.acquire(False):
                 held += 1
@@ -453,9 +456,10 @@ def _interleaved(v, b, held_extra, o1, o2, point, want):
     if point >= npoints:
         raise Prune()
     if OPS1[o1] == 'release':
-        if held < 1:
-            raise Prune()
-        held -= 1
+        if held >= 1:
+            held -= 1
+        else:
+            state['surplus'] = True
     elif OPS1[o1] == 'grow':
         exp_b += 1
     else:
@@ -472,7 +476,9 @@ def _interleaved(v, b, held_extra, o1, o2, point, want):
         return fail('C10:overlap:value-outside-0..bound:%s-during-%s' % (OPS2[o2], OPS1[o1]))
     if s._initial_value != exp_b:
         return fail('C10:overlap:bound-differs-from-the-configured-size:%s-during-%s' % (OPS2[o2], OPS1[o1]))
-    if s._value != s._initial_value - held:
+    if s._value != s._initial_value - held and not state['surplus']:
+        # (a surplus release can only be told from a real one while everything is free: with one in the history only the bound is
+        # asserted)
         # a slot was lost (value too small: once everything is given back a slot stays taken) or invented (too large: more jobs
         # than the configured size can be in flight)
         return fail('C10:overlap:slots-not-conserved:%s-during-%s' % (OPS2[o2], OPS1[o1]))
